@@ -17,6 +17,9 @@ pub struct MemSource {
 	pub tiles: TileMap,
 	pub parameters: TilesReaderParameters,
 	pub tilejson: TileJSON,
+	/// answer bbox streams from the map directly instead of the trait's default lookup loop over
+	/// every coordinate of the box (needed for sparse sets with huge level boxes)
+	pub fast_stream: bool,
 }
 
 pub fn pyramid_of(tiles: &TileMap) -> TileBBoxPyramid {
@@ -30,7 +33,7 @@ pub fn pyramid_of(tiles: &TileMap) -> TileBBoxPyramid {
 impl MemSource {
 	pub fn new(name: &str, tiles: TileMap, format: TileFormat, compression: TileCompression) -> MemSource {
 		let pyramid = pyramid_of(&tiles);
-		MemSource { name: name.to_string(), tiles, parameters: TilesReaderParameters::new(format, compression, pyramid), tilejson: TileJSON::default() }
+		MemSource { name: name.to_string(), tiles, parameters: TilesReaderParameters::new(format, compression, pyramid), tilejson: TileJSON::default(), fast_stream: false }
 	}
 	pub fn with_pyramid(mut self, p: TileBBoxPyramid) -> MemSource {
 		self.parameters.bbox_pyramid = p;
@@ -64,6 +67,21 @@ impl TilesReaderTrait for MemSource {
 	}
 	async fn get_tile_data(&self, coord: &TileCoord3) -> Result<Option<Blob>> {
 		Ok(self.tiles.get(&(coord.z, coord.x, coord.y)).map(|v| Blob::from(v.as_slice())))
+	}
+	async fn get_bbox_tile_stream(&self, bbox: TileBBox) -> TileStream {
+		if self.fast_stream {
+			let v: Vec<(TileCoord3, Blob)> = self
+				.tiles
+				.iter()
+				.filter(|(k, _)| k.0 == bbox.level && k.1 >= bbox.x_min && k.1 <= bbox.x_max && k.2 >= bbox.y_min && k.2 <= bbox.y_max)
+				.map(|(k, v)| (TileCoord3 { x: k.1, y: k.2, z: k.0 }, Blob::from(v.as_slice())))
+				.collect();
+			return TileStream::from_vec(v);
+		}
+		// the trait's default: a lookup loop over every coordinate of the box
+		let coords: Vec<TileCoord3> = bbox.iter_coords().collect();
+		let me: &MemSource = self;
+		TileStream::from_coord_vec_async(coords, move |coord| async move { me.tiles.get(&(coord.z, coord.x, coord.y)).map(|v| (coord, Blob::from(v.as_slice()))) })
 	}
 }
 
